@@ -6,7 +6,8 @@
 P=$1; K=$2; shift 2
 CHECKS=${@:-$P}
 WT=/tmp/seed_$P
-OUT=/verif/seeded/$P-$K
+DK=${DEST_K:-$K}     # round 2: DEST_K=3 files the agent's patch1 as seeded/<P>-3
+OUT=/verif/seeded/$P-$DK
 mkdir -p $OUT
 cd $WT || exit 2
 git checkout -q -- . 
@@ -22,8 +23,8 @@ for C in $CHECKS; do
 done
 git checkout -q -- .
 cp _seed/patch$K.diff $OUT/patch.diff; cp _seed/demo$K.py $OUT/demo.py; cp _seed/meta$K.json $OUT/meta_agent.json
-echo "seed $P-$K: demo without change exit=$D0, with change exit=$D1; tests: $T; checks:$RES"
-/venv/bin/python - "$P" "$K" "$D0" "$D1" "$T" "$RES" <<'PY'
+echo "seed $P-$DK: demo without change exit=$D0, with change exit=$D1; tests: $T; checks:$RES"
+/venv/bin/python - "$P" "$DK" "$D0" "$D1" "$T" "$RES" <<'PY'
 import json, sys
 p, k, d0, d1, t, res = sys.argv[1:]
 m = json.load(open(f"/verif/seeded/{p}-{k}/meta_agent.json"))
